@@ -10,9 +10,12 @@
     l2 = n*(1-l1_ratio)*penalty (Y: the centred targets) - the same term [group_kkt_eps_optimal] and
     [mtl_ok_sound] of C11/Properties.v speak about.  [bcd_sweep] is the term of C11/Model.v that is replayed
     bit for bit at binary64 against the implementation, here over the reals with [RXe e]: e is the tolerance
-    of approx::abs_diff_eq!/abs_diff_ne! (2^-52 in the implementation, [RX] = [RXe 2^-52]); e = 0 reads the
-    tests `abs_diff_eq!(a, 0)` as `a = 0`.  [rband_free e W]: no row of W has its Euclidean norm in the band
-    0 < |W_j| <= e.  [group_cond C l1 l2 w 0]: the exact first-order condition of row w with correlation
+    of approx::abs_diff_eq! in the test that skips columns of tiny norm (2^-52 in the implementation,
+    [RX] = [RXe 2^-52]; e = 0 reads `abs_diff_eq!(norm, 0)` as `norm = 0`).  The rank-one residual updates are
+    guarded by the exact test `norm != 0` since the repair of finding F52 (/repo 8010f90);
+    [bcd_sweep_absdiff] is the sweep with the earlier guard `abs_diff_ne!(norm, 0)`, kept for the witness of
+    that finding, and [rband_free e W] (no row of W has its Euclidean norm in the band 0 < |W_j| <= e) is the
+    side condition that sweep needed.  [group_cond C l1 l2 w 0]: the exact first-order condition of row w with correlation
     C = x_j^T R (|C - l2 w| <= l1 if w = 0, C - l2 w = l1 w/|w| otherwise). *)
 From Coq Require Import List Reals.
 From LinfaVerif Require Import Common.Num Common.NdSum Common.QF Common.Convex C11.Model C11.Proofs C11.Descent C11.Block.
@@ -31,51 +34,64 @@ Theorem bcd_update_minimises_row : forall (l1r pen nF nj : R) (tmp v : list R),
   g wn <= g v.
 Proof. exact Block.bcd_update_minimises_row. Qed.
 
-(** T2.  One sweep `for j in 0..n_features` of block_coordinate_descent started with the true residual matrix
-    never increases the multi-task objective and returns the true residual matrix of the new coefficients -
-    provided no row before or after the sweep has its norm in the band (0, e] (columns with |x_j|^2 <= e are
-    skipped: row and residual untouched) ... *)
+(** T2.  For every input and every tolerance e >= 0 of the column-skipping test: one sweep
+    `for j in 0..n_features` of block_coordinate_descent started with the true residual matrix never increases
+    the multi-task objective and returns the true residual matrix of the new coefficients (columns with
+    |x_j|^2 <= e are skipped: row and residual untouched) ... *)
 Theorem bcd_sweep_noninc : forall (cc t1 : bool) (l1r pen nF e : R) (n t : nat) (cols Y W : list (list R))
                                   (wmax dwmax : R) (W2 R2 : list (list R)) (m : R * R),
   0 <= nF * l1r * pen -> 0 <= nF * (1 - l1r) * pen -> 0 <= e ->
   mshape n t Y -> Forall (fun c => length c = n) cols -> length W = length cols -> Forall (fun w => length w = t) W ->
   bcd_sweep R_ops (RXe e) cc l1r pen nF t1 cols (map (fun c => dot R_ops cc c c) cols) W (mres cols Y W) wmax dwmax
     = (W2, (R2, m)) ->
-  rband_free e W -> rband_free e W2 ->
   let P V := mobjective cols (trans t Y) (nF * l1r * pen) (nF * (1 - l1r) * pen) (trans t V) in
   length W2 = length cols /\ Forall (fun w => length w = t) W2 /\ R2 = mres cols Y W2 /\ P W2 <= P W.
 Proof. exact Block.bcd_sweep_noninc. Qed.
 
-(** ... in particular for every input when the tests are read exactly (e = 0) ... *)
-Theorem bcd_sweep_noninc_exact : forall (cc t1 : bool) (l1r pen nF : R) (n t : nat) (cols Y W : list (list R))
-                                        (wmax dwmax : R) (W2 R2 : list (list R)) (m : R * R),
+(** ... in particular with the literal tolerance 2^-52, i.e. for the very instance [RX] whose binary64
+    counterpart is replayed against the implementation ... *)
+Theorem bcd_sweep_noninc_literal : forall (cc t1 : bool) (l1r pen nF : R) (n t : nat) (cols Y W : list (list R))
+                                          (wmax dwmax : R) (W2 R2 : list (list R)) (m : R * R),
   0 <= nF * l1r * pen -> 0 <= nF * (1 - l1r) * pen ->
   mshape n t Y -> Forall (fun c => length c = n) cols -> length W = length cols -> Forall (fun w => length w = t) W ->
-  bcd_sweep R_ops (RXe 0) cc l1r pen nF t1 cols (map (fun c => dot R_ops cc c c) cols) W (mres cols Y W) wmax dwmax
+  bcd_sweep R_ops RX cc l1r pen nF t1 cols (map (fun c => dot R_ops cc c c) cols) W (mres cols Y W) wmax dwmax
     = (W2, (R2, m)) ->
   let P V := mobjective cols (trans t Y) (nF * l1r * pen) (nF * (1 - l1r) * pen) (trans t V) in
   length W2 = length cols /\ Forall (fun w => length w = t) W2 /\ R2 = mres cols Y W2 /\ P W2 <= P W.
-Proof. exact Block.bcd_sweep_noninc_exact. Qed.
+Proof. exact Block.bcd_sweep_noninc_literal. Qed.
 
-(** ... while with the literal tolerance 2^-52 the band matters (finding F52, refuted by a witness: three
-    copies of the column (1), one task with target 2^-52, no penalty - every block update returns the row
-    (2^-52), whose norm abs_diff_ne!(norm_w_j, 0) treats as zero, so the rows are stored without the residual
-    matrix being updated; the objective quadruples). *)
+(** Finding F52 (repaired in /repo 8010f90).  The sweep with the earlier guard `abs_diff_ne!(norm, 0)` was a
+    descent step only when no row before or after the sweep had its norm in the band (0, e] ... *)
+Theorem bcd_sweep_absdiff_noninc : forall (cc t1 : bool) (l1r pen nF e : R) (n t : nat) (cols Y W : list (list R))
+                                          (wmax dwmax : R) (W2 R2 : list (list R)) (m : R * R),
+  0 <= nF * l1r * pen -> 0 <= nF * (1 - l1r) * pen -> 0 <= e ->
+  mshape n t Y -> Forall (fun c => length c = n) cols -> length W = length cols -> Forall (fun w => length w = t) W ->
+  bcd_sweep_absdiff R_ops (RXe e) cc l1r pen nF t1 cols (map (fun c => dot R_ops cc c c) cols) W (mres cols Y W) wmax dwmax
+    = (W2, (R2, m)) ->
+  rband_free e W -> rband_free e W2 ->
+  let P V := mobjective cols (trans t Y) (nF * l1r * pen) (nF * (1 - l1r) * pen) (trans t V) in
+  length W2 = length cols /\ Forall (fun w => length w = t) W2 /\ R2 = mres cols Y W2 /\ P W2 <= P W.
+Proof. exact Block.bcd_sweep_absdiff_noninc. Qed.
+
+(** ... and with the literal tolerance 2^-52 the band mattered (witness: three copies of the column (1), one
+    task with target 2^-52, no penalty - every block update returns the row (2^-52), whose norm
+    abs_diff_ne!(norm_w_j, 0) treated as zero, so the rows were stored without the residual matrix being
+    updated; the objective quadrupled). *)
 Theorem bcd_sweep_band_refuted :
   exists (cols Y W W2 R2 : list (list R)) (m : R * R),
-    bcd_sweep R_ops RX false 0 0 1 true cols (map (fun c => dot R_ops false c c) cols) W (mres cols Y W) 0 0 = (W2, (R2, m))
+    bcd_sweep_absdiff R_ops RX false 0 0 1 true cols (map (fun c => dot R_ops false c c) cols) W (mres cols Y W) 0 0 = (W2, (R2, m))
     /\ R2 <> mres cols Y W2
     /\ mobjective cols (trans 1 Y) 0 0 (trans 1 W) < mobjective cols (trans 1 Y) 0 0 (trans 1 W2).
 Proof. exact Block.bcd_sweep_band_refuted. Qed.
 
 (** T2.  A sweep that returns the coefficient matrix it was given certifies the group first-order condition
     of every row exactly, hence global optimality against every other coefficient matrix - provided skipped
-    columns are zero columns with a zero row and no row norm lies in the band ... *)
+    columns are zero columns with a zero row (the only side condition left; it is finding F50) ... *)
 Theorem bcd_fixed_point_is_kkt : forall (cc t1 : bool) (l1r pen nF e : R) (n t : nat) (cols Y W : list (list R))
                                         (wmax dwmax : R) (R2 : list (list R)) (m : R * R),
   0 <= nF * l1r * pen -> 0 <= nF * (1 - l1r) * pen -> 0 <= e ->
   mshape n t Y -> Forall (fun c => length c = n) cols ->
-  Forall2 (fun c w => length w = t /\ (sq c <= e -> sq c = 0 /\ sq w = 0)) cols W -> rband_free e W ->
+  Forall2 (fun c w => length w = t /\ (sq c <= e -> sq c = 0 /\ sq w = 0)) cols W ->
   bcd_sweep R_ops (RXe e) cc l1r pen nF t1 cols (map (fun c => dot R_ops cc c c) cols) W (mres cols Y W) wmax dwmax
     = (W, (R2, m)) ->
   let l1 := nF * l1r * pen in
